@@ -51,6 +51,11 @@ func Run(cfg hx.Config) error {
 		k := families[i%len(families)]
 		x.archive(k.name, generate(x.rnd, k))
 	}
+	nRaw := cfg.N(500, 20000)
+	for i := 0; i < nRaw && !r.Stop(); i++ {
+		k := families[i%len(families)]
+		x.archiveBytes("raw-"+k.name, writeRaw(x.encodeRaw(generate(x.rnd, k))))
+	}
 	nBig := cfg.N(6, 60)
 	for i := 0; i < nBig && !r.Stop(); i++ {
 		x.archive("big", generate(x.rnd, bigFamily))
@@ -112,11 +117,16 @@ func withTimeout(d time.Duration, f func()) bool {
 
 // archive runs one member list through the real code, the protocol and the oracle.
 func (x *runner) archive(fam string, specs []spec) {
-	r := x.r
 	arch, dropped := writeArchive(specs)
 	if dropped > 0 {
-		r.Count("writer-dropped-member")
+		x.r.Count("writer-dropped-member")
 	}
+	x.archiveBytes(fam, arch)
+}
+
+// archiveBytes runs one archive through the real code, the protocol and the oracle.
+func (x *runner) archiveBytes(fam string, arch []byte) {
+	r := x.r
 	ms, err := decodeArchive(arch)
 	if err != nil {
 		r.Count("decode-failed")
